@@ -350,8 +350,8 @@ fn cmd_run(prop: &str, tier: Tier) -> i32 {
             "known_findings_observed": known.iter().enumerate().map(|(i,k)| (k.rule.clone(), known_hits.get(&i).copied().unwrap_or(0))).collect::<BTreeMap<_,_>>(),
             "replay": replay_info,
             "harness_errors": harness,
-            "real_code": "dropshot (all of it, macros included), hyper 1.6 h1+h2 server, hyper-util auto::Builder/GracefulShutdown, h2, http, httparse, serde stack, multer, tokio current-thread scheduler, tokio timer wheel, tokio sync, waitgroup",
-            "stubs": "TCP sockets (SimNet: in-memory wires with seeded segmentation, latency, back-pressure, close/reset/half-close, accept errors), OS clock (tokio paused clock), logging drain (slog::Discard), TLS (not exercised)",
+            "real_code": "dropshot (all of it, macros included), hyper 1.6 h1+h2 server, hyper-util auto::Builder/GracefulShutdown, h2, http, httparse, serde stack, multer, rustls/tokio-rustls (HTTPS runs), tokio current-thread scheduler, tokio timer wheel, tokio sync, waitgroup",
+            "stubs": "TCP sockets (SimNet: in-memory wires with seeded segmentation, latency, back-pressure, close/reset/half-close, accept errors), OS clock (tokio paused clock + SimTimer for hyper), request-id randomness (seeded generator), logging drain (slog::Discard)",
         },
         "assumptions": scn.assumptions(),
         "wall_s": wall,
